@@ -1,7 +1,7 @@
 from checks.gencommon import *
 
 def run(tier):
-    return run_gen("C05", tier, "^VerifC05", hgen_extra=["-jmode"],
+    return run_gen("C05", tier, "^VerifC05", hgen_extra=["-jmode"], extra_runs=[JSON_STRINGS],
                    params_q={"D": 1, "L": 2, "S": 1, "B": 1, "pool": 1}, params_t={"D": 2, "L": 2, "S": 2, "B": 2, "pool": 4, "extrabit": 1},
                    ladder=[{"B": 1, "S": 1, "D": 1, "pool": 1, "extrabit": 0}], r_thorough=R_QUICK,
                    bounds={"value": "JSON-mode value: integer and float leaves are concrete on each path (rotating pool 0,1,7,1234567,max,min / 0,1.5,-2,NaN,+Inf,-Inf), field masks range over every subset of the bits the schema uses, "
